@@ -69,12 +69,7 @@ def run(pid, tier, seed, njobs=None):
     rng = random.Random(seed)
     lib.build_harness()
     jobs = []
-    for f in sorted(glob.glob(os.path.join(lib.VERIF, "scenarios", "*.json"))):
-        j = json.load(open(f))
-        if "site" not in j.get("rec", []):
-            j["rec"] = j.get("rec", []) + ["site"]
-        j["rec"] = [r for r in j["rec"] if r != "step"]
-        jobs.append(j)
+    jobs += lib.scenario_jobs(pid, rec=["site"])
     n = njobs or (500 if tier == "quick" else 6000)
     names = ["thr16", "thr64", "two_bins", "list8"]
     for i in range(n):
@@ -85,7 +80,7 @@ def run(pid, tier, seed, njobs=None):
             jobs.append(j)
         else:
             jobs.append(multigen_job(rng, "c10-%05d" % i))
-    res = lib.run_jobs(jobs, "c10", procs=8, timeout=1200)
+    res = lib.run_jobs(jobs, "c10", procs=8, timeout=1800)
     projected, byid, outcomes = [], {}, {}
     for job, trace, crash in res:
         if crash is not None:
